@@ -222,6 +222,10 @@ type vConnKey struct{}
 // c04Impl is the "user" handler: its behaviour is chosen per request by the harness.
 func c04Impl(g *c04Ghost, ctx ServerCtx, req *vMsg) (*vMsg, error) {
 	c, k := int(req.node), req.tok
+	// The entry of a handler is an event of its own: which of two handler goroutines that
+	// were both started gets to run first is up to the scheduler (without this scheduling
+	// point the engine would run the entry code of the goroutine started first, first).
+	vAtomic(1, g)
 	// C04: at most one handler per connection has entered and not yet released
 	vAssert(g.active[c] == 0, "C04.handler-started-before-release")
 	// C03 (server half): started in arrival order, at most once
@@ -239,6 +243,7 @@ func c04Impl(g *c04Ghost, ctx ServerCtx, req *vMsg) (*vMsg, error) {
 	g.startedReq[c][k] = true
 	g.started[c]++
 	g.active[c]++
+	vAtomicEnd()
 	release := func() {
 		if !g.released[c][k] {
 			g.released[c][k] = true
